@@ -573,6 +573,18 @@ func (m *vf20Machine) step(op vf20Op) {
 			ext := m.pskExt(sess, fields, age)
 			call = func() { err = m.uc.SetPskExtension(ext) }
 		}
+	case "R":
+		// SetClientRandom: "BuildHandshakeState() must be called before" - a documented edit of the built hello; the
+		// session extensions (and the PSK binder, which covers the random) must follow at handshake start
+		switch {
+		case m.hsDone:
+			m.demote("unspecified:after-handshake")
+		case !m.built:
+			m.demote("unspecified:client-random-before-build")
+		}
+		r := make([]byte, 32)
+		vfNewDetRand(env.seed+uint64(op.Pick), "client-random").Read(r)
+		call = func() { err = m.uc.SetClientRandom(r) }
 	case "H":
 		m.handshake(op)
 		return
@@ -890,6 +902,9 @@ func TestVerifC20StateMachine(t *testing.T) {
 				if _, ok := vf20Variants[kind]; ok {
 					op.Variant, op.Pick = vf20DrawVariant(rt, kind)
 				}
+				if kind == "R" {
+					op.Pick = rapid.IntRange(0, 255).Draw(rt, "random_pick")
+				}
 				m.t = rt
 				m.step(op)
 			}
@@ -901,6 +916,7 @@ func TestVerifC20StateMachine(t *testing.T) {
 			"SetPskExtension":                   act("P"),
 			"SetSessionState":                   act("S"),
 			"BuildHandshakeState":               act("B"),
+			"SetClientRandom":                   act("R"),
 			"Handshake":                         act("H"),
 		})
 		m.t = rt
@@ -1001,6 +1017,10 @@ func TestVerifC20Directed(t *testing.T) {
 		{{Kind: "W"}, {Kind: "W"}, {Kind: "P", Variant: "real"}, {Kind: "B"}, {Kind: "H"}},
 		{{Kind: "P", Variant: "forged", Pick: 1}, {Kind: "B"}, {Kind: "B"}, {Kind: "H"}},
 		{{Kind: "P", Variant: "fake", Pick: 3}, {Kind: "H"}},
+		{{Kind: "P", Variant: "forged", Pick: 2}, {Kind: "B"}, {Kind: "R", Pick: 1}, {Kind: "H"}},
+		{{Kind: "P", Variant: "real"}, {Kind: "B"}, {Kind: "R", Pick: 2}, {Kind: "B"}, {Kind: "R", Pick: 3}, {Kind: "H"}},
+		{{Kind: "T", Variant: "forged", Pick: 1}, {Kind: "B"}, {Kind: "R", Pick: 4}, {Kind: "H"}},
+		{{Kind: "W"}, {Kind: "P", Variant: "forged"}, {Kind: "B"}, {Kind: "R", Pick: 5}, {Kind: "H"}},
 		{{Kind: "P", Variant: "forged-fields"}, {Kind: "B"}, {Kind: "H"}}, // the known class
 		{{Kind: "W"}, {Kind: "P", Variant: "real-fields"}, {Kind: "H"}},   // the known class
 		{{Kind: "B"}, {Kind: "T", Variant: "forged"}, {Kind: "H"}},        // forbidden: after build
